@@ -30,7 +30,7 @@ namespace {
     }
     // a block of statements that builds/mutates one local and reports through t()/ts(); returns the local's name
     std::string piece(std::string &out, std::string &ret_expr) {
-      const int k = int(rng.below(11));
+      const int k = int(rng.below(14));
       switch (k) {
       case 0: {
         const std::string s = nm("s");
@@ -95,6 +95,21 @@ namespace {
         ret_expr = s;
         return s;
       }
+      case 10:
+      case 11:
+      case 12: {
+        // literals and constant-folded expressions handed to functions that modify their parameter
+        static const char *bools[] = {"!true", "!false", "true && true", "false || true", "1 < 2", "!(1 < 2)", "true"};
+        static const char *nums[] = {"-5", "+3", "1 + 2", "2 * 3.5", "~1", "int(5)", "double(2)", "7", "-(2)"};
+        static const char *strs[] = {"\"a\" + \"b\"", "\"lit\"", "to_string(1) + \"z\""};
+        switch (rng.below(3)) {
+        case 0: out += std::string("try { tb(flip(") + bools[rng.below(7)] + ")) } catch (e) { t(-7) }; "; break;
+        case 1: out += std::string("try { t(to_int(bump_num(") + nums[rng.below(9)] + "))) } catch (e) { t(-8) }; "; break;
+        default: out += std::string("try { ts(app(") + strs[rng.below(3)] + ")) } catch (e) { t(-9) }; "; break;
+        }
+        ret_expr = lit_int();
+        return "";
+      }
       default: {
         const std::string s = nm("c");
         out += "var " + s + " = 'x'; var " + s + "b = true; if (" + s + "b) { t(1) }; ";
@@ -136,7 +151,11 @@ namespace {
                         "def mutate(string s) { s += \"<mutated>\" }\n"
                         "def mutate(Map m) { m[\"zz\"] = 1 }\n"
                         "def mutate(x) { }\n"
-                        "def to_int(d) { return int(d) }\n";
+                        "def to_int(d) { return int(d) }\n"
+                        "def flip(b) { b = !b; return b }\n"
+                        "def bump_num(x) { x += 1; return x }\n"
+                        "def app(s) { s += \"x\"; return s }\n"
+                        "def tb(b) { if (b) { t(1) } else { t(0) } }\n";
 
   struct CallOut {
     std::string out;
